@@ -1,5 +1,8 @@
 import Norad.Lemmas.C18SpecRead
 import Norad.Lemmas.C18Codec
+import Norad.Lemmas.C18Escape
+import Norad.Model.DSTables
+import Norad.Generated.DsConsts
 /-!
 # C18 — saving and loading a designspace document preserves it
 
@@ -38,7 +41,7 @@ theorem plist_glue_roundtrip_dict {c : Codec} (L : CodecLaws c) (kvs : KVs)
 theorem plist_glue_roundtrip_counterexample (c : Codec) :
     (serializeWithin c (.str "   ")).map (readValue c) = .ok (some (.str "")) := by
   have : trimXml "   " = "" := by decide
-  simp [serializeWithin, valueInner, Out.map, readValue, elemText, rawText, this]
+  simp [serializeWithin, leafInner, Out.map, readValue, elemText, rawText, this]
 
 /-- … and two keys that differ by a leading blank collapse into one entry holding the later value -/
 theorem plist_glue_key_collision_counterexample (c : Codec) :
@@ -66,7 +69,7 @@ theorem glue_never_panics_value (c : Codec) (v : PV) (hd : pvDates c v = true) :
     `plist::Date::to_xml_format` cannot print (`Date::from(SystemTime)` does not validate) panics -/
 theorem glue_never_panics_counterexample (c : Codec) (d : Date) (h : c.showDate d = none) :
     serializeWithin c (.dict (.cons "k" (.date d) .nil)) = .panic := by
-  simp [serializeWithin, dictInner, valueInner, h, Out.map, Out.bind]
+  simp [serializeWithin, dictInner, leafInner, h, Out.map, Out.bind]
 
 /-! ## the document -/
 
@@ -154,7 +157,7 @@ theorem ds_spec_reader_finds_values {c : Codec} (L : CodecLaws c) (d : Doc) (h :
     any file-level effect) it finds the document also when lib strings start or end with blanks -/
 theorem ds_spec_reader_no_trim (c : Codec) :
     (serializeWithin c (.str "  a ")).map (plistObject c) = .ok (some (.str "  a ")) := by
-  simp [serializeWithin, valueInner, Out.map, plistObject, leafText]
+  simp [serializeWithin, leafInner, Out.map, plistObject, leafText]
 
 /-- finding `attr-whitespace-unescaped`: without `XmlSafe` the statement is false — a conforming processor
     reads the attribute value `"We\tig\nht"` as `"We ig ht"` -/
@@ -193,6 +196,38 @@ theorem base64_roundtrip (bs : List UInt8) : b64dec (b64enc bs) = some bs := b64
 theorem ds_roundtrip_refCodec (d : Doc) (h : WellFormed refCodec d = true) :
     saveLoad refCodec d = .ok (some d) := ds_roundtrip codecLaws_refCodec d h
 
+/-! ### the date component, for real -/
+
+/-- **date_text_roundtrip**: the text layer of `plist::Date::{to,from}_xml_format` as implemented in
+    `Model/DSCodec.lean` (`YYYY-MM-DDTHH:MM:SS[.f…]Z`, fixed-width decimal fields, sub-second digits only
+    when non-zero and without trailing zeros): every time stamp whose fields fit their widths is read back;
+    structural proof (digit lemmas + `dropTrailingZeros_pad`), no enumeration of dates -/
+theorem date_text_roundtrip (t : Stamp) (hy : t.year < 10000) (hm : t.month < 100) (hd : t.day < 100)
+    (hh : t.hour < 100) (hi : t.minute < 100) (hs : t.second < 100) (hn : t.nanos < 1000000000) :
+    parseStamp (showStamp t) = some t := parse_showStamp t hy hm hd hh hi hs hn
+
+/-- **date_codec_roundtrip_of_calendar**: the whole date codec (`rfc3339Show`/`rfc3339Read`: seconds and
+    nanoseconds since the Unix epoch ↔ RFC 3339 text, years 0000–9999) is a round trip, under ONE named
+    hypothesis, `CalendarInverse` (Hinnant's `days_from_civil ∘ civil_from_days = id` with fields in range on
+    that day range), which stays unproved: `omega` does not decide it, a proof by enumeration is not wanted -/
+theorem date_codec_roundtrip_of_calendar (H : CalendarInverse) (d : Date) (s : String)
+    (h : rfc3339Show d = some s) : rfc3339Read s = some d := rfc3339_roundtrip_of_calendar H d s h
+
+/-- with it, the codec hypothesis holds for real integers, real base64 and real dates; the float component
+    (`f32`/`f64` shortest-round-trip `Display`) is the only stand-in left -/
+theorem codec_laws_real_dates (H : CalendarInverse) : CodecLaws realDateCodec := codecLaws_realDateCodec H
+
+/-- spot checks of the calendar hypothesis at the ends of the range and at the plist and Unix epochs -/
+example : civilFromDays (-719528) = (0, 1, 1) ∧ daysFromCivil 0 1 1 = -719528 ∧
+    civilFromDays 2932896 = (9999, 12, 31) ∧ daysFromCivil 9999 12 31 = 2932896 ∧
+    civilFromDays 0 = (1970, 1, 1) ∧ civilFromDays 11323 = (2001, 1, 1) ∧
+    civilFromDays 11016 = (2000, 2, 29) ∧ daysFromCivil 2000 2 29 = 11016 ∧
+    civilFromDays (-25509) = (1900, 2, 28) ∧ civilFromDays (-25508) = (1900, 3, 1) := by decide
+
+/-- the real printer refuses exactly what the model calls unprintable (the `date-out-of-range-panics` finding) -/
+example : rfc3339Show ⟨253402300800, 0⟩ = none ∧ rfc3339Show ⟨-62167219201, 0⟩ = none ∧
+    dateLo' = dateLo ∧ dateHi' = dateHi := by decide
+
 /-- non-vacuity with a date and data in the lib -/
 example : WellFormed refCodec { sampleDoc with lib := .cons "d" (.date ⟨0, 5⟩) (.cons "b" (.data [255, 0, 7]) .nil) } = true := by
   decide
@@ -203,5 +238,167 @@ example (c : Codec) : kvsStated (.cons "s" (.str "a b") (.cons "i" (.int (-5)) (
     ∧ kvsClean (.cons "s" (.str "a b") .nil) = true
     ∧ kvsDates c (.cons "s" (.str "a b") (.cons "a" (.arr (.cons (.dict .nil) .nil)) .nil)) = true := by
   refine ⟨by decide, by decide, by simp [kvsDates, pvDates, pvsDates]⟩
+
+/-! ## the file level: what is written for a string is read back as that string -/
+
+/-- **escape_unescape_text / _attr**: element content (escaped by `escape_list (Text, Partial)`) and attribute
+    values (`(DoubleQAttr, Partial)`) are read back unchanged by quick-xml's `unescape`, every string -/
+theorem escape_unescape_text (s : List Char) : unescape (escText s) = some s :=
+  unescape_escWith escTextSet (by decide) (by decide) s
+
+theorem escape_unescape_attr (s : List Char) : unescape (escAttr s) = some s :=
+  unescape_escWith escAttrSet (by decide) (by decide) s
+
+/-- an attribute value never contains the quote it is delimited by, nor `<` or a bare `&` -/
+theorem escAttr_has_no_quote (s : List Char) : '"' ∉ escAttr s ∧ '<' ∉ escAttr s := by
+  induction s with
+  | nil => simp [escAttr, escWith]
+  | cons ch r ih =>
+    have h : '"' ∉ escChar escAttrSet ch ∧ '<' ∉ escChar escAttrSet ch := by
+      unfold escChar
+      by_cases hm : escAttrSet.contains ch = true
+      · have : ch = '"' ∨ ch = '&' ∨ ch = '<' ∨ ch = '>' := by simpa [escAttrSet] using hm
+        rcases this with h | h | h | h <;> subst h <;> decide
+      · have h1 : ch ≠ '"' := by intro e; subst e; exact hm (by decide)
+        have h2 : ch ≠ '<' := by intro e; subst e; exact hm (by decide)
+        have hm' : ch ∉ escAttrSet := by simpa using hm
+        simp only [List.contains_eq_mem, hm', decide_false, Bool.false_eq_true, if_false, List.mem_singleton]
+        exact ⟨fun e => h1 e.symm, fun e => h2 e.symm⟩
+    simp only [escAttr, escWith, List.mem_append, not_or] at ih ⊢
+    exact ⟨⟨h.1, ih.1⟩, ⟨h.2, ih.2⟩⟩
+
+/-! ## source-level tie: the tables regenerated from the Rust sources of THIS run (`Generated/DsConsts.lean`,
+    tools/extract_ds_consts.py: norad's designspace.rs and serde_xml_plist.rs, vendored quick-xml 0.37,
+    plist 1.x, time 0.3) are the ones the model uses -/
+
+section source
+open Generated.DsConsts C18.Tables
+
+/-- quick-xml's `_escape` replacements are the model's `entityOf`, arm by arm -/
+theorem source_entity_table_eq_model :
+    entityTable.all (fun p => entityOf (Char.ofNat p.1) == some p.2.toList) = true ∧ entityTable.length = 9 := by
+  decide
+
+/-- the serializer path norad uses (Serializer::new defaults, never changed by `save`): strings go through
+    `escape_list`, level `Partial`; text escapes exactly the model's `escTextSet`, attribute values (double
+    quoted) exactly `escAttrSet` -/
+theorem source_escape_sets_eq_model :
+    strEscapeFn = "escape_list" ∧ dsCallsQuoteLevel = false ∧ attrQuoteChar = '"'.toNat ∧
+    (escapeList.find? fun r => r.1 = textTarget ∧ r.2.1 = defaultLevel).map (·.2.2) = some (escTextSet.map Char.toNat) ∧
+    (escapeList.find? fun r => r.1 = attrTarget ∧ r.2.1 = defaultLevel).map (·.2.2) = some (escAttrSet.map Char.toNat) ∧
+    escapePartial = escTextSet.map Char.toNat := by
+  decide
+
+/-- the reader's entity table is the model's `xmlEntity`; character references as in `charRef` -/
+theorem source_unescape_table_eq_model :
+    xmlEntities.all (fun p => xmlEntity p.1.toList == some (Char.ofNat p.2)) = true ∧ xmlEntities.length = 5 ∧
+    charRefHexPrefix = "x" ∧ charRefZeroRefused = true := by
+  decide
+
+/-- over the extracted tables themselves: every replacement `_escape` can write is resolved back to the
+    byte it replaces by `resolve_xml_entity` / `parse_number` -/
+theorem source_unescape_inverts_escape :
+    entityTable.all (fun p => unescGo (entitiesOf xmlEntities) none p.2.toList == some [Char.ofNat p.1]) = true := by
+  decide
+
+/-- `save`: empty elements are not expanded, the indentation character is XML white space (it cannot reach
+    the tree), the declaration names UTF-8, the file ends with a line break -/
+theorem source_writer_settings_match_model :
+    defaultExpandEmpty = false ∧ dsCallsExpandEmpty = false ∧ (dsIndentChar = 32 ∨ dsIndentChar = 9) ∧
+    declOk dsDeclaration = true ∧ rootName (treeOf (toTree kc fullDoc)) = Generated.DsConsts.rootName := by
+  decide +kernel
+
+/-- attribute names: with everything present the model writes exactly the `@` fields of the struct, with
+    everything optional absent exactly those without a `skip_serializing_if` -/
+theorem source_attr_tables_match_model :
+    sameSet (written (docAttrs kc fullDoc)) (attrsOf fields "DesignSpaceDocument") = true ∧
+    sameSet (written (axisAttrs kc fullAxis)) (attrsOf fields "Axis") = true ∧
+    sameSet (written (axisAttrs kc minAxis)) (alwaysAttrsOf fields "Axis") = true ∧
+    sameSet (written (mapAttrs kc ⟨z, z⟩)) (attrsOf fields "AxisMapping") = true ∧
+    sameSet (written (rulesAttrs ⟨.last, []⟩)) (attrsOf fields "Rules") = true ∧
+    sameSet (written (ruleAttrs fullRule)) (attrsOf fields "Rule") = true ∧
+    sameSet (written (ruleAttrs minRule)) (alwaysAttrsOf fields "Rule") = true ∧
+    sameSet (written (subAttrs ⟨"a", "b"⟩)) (attrsOf fields "Substitution") = true ∧
+    sameSet (written (conditionAttrs kc fullCond)) (attrsOf fields "Condition") = true ∧
+    sameSet (written (conditionAttrs kc minCond)) (alwaysAttrsOf fields "Condition") = true ∧
+    sameSet (written (sourceAttrs fullSource)) (attrsOf fields "Source") = true ∧
+    sameSet (written (sourceAttrs minSource)) (alwaysAttrsOf fields "Source") = true ∧
+    sameSet (written (instanceAttrSpec fullInstance)) (attrsOf fields "Instance") = true ∧
+    sameSet (written (instanceAttrSpec minInstance)) (alwaysAttrsOf fields "Instance") = true ∧
+    sameSet (written (dimensionAttrs kc fullDim)) (attrsOf fields "Dimension") = true ∧
+    sameSet (written (dimensionAttrs kc minDim)) (alwaysAttrsOf fields "Dimension") = true := by
+  decide
+
+/-- child elements and list wrappers, the same way -/
+theorem source_element_tables_match_model :
+    sameSet (childNames (treeOf (toTree kc fullDoc))) (elemsOf fields "DesignSpaceDocument") = true ∧
+    sameSet (childNames (treeOf (toTree kc minDoc))) (alwaysElemsOf fields "DesignSpaceDocument") = true ∧
+    sameSet (childNames (axisNode kc fullAxis)) (elemsOf fields "Axis") = true ∧
+    sameSet (childNames (axisNode kc minAxis)) (alwaysElemsOf fields "Axis") = true ∧
+    sameSet (childNames (rulesNode kc ⟨.last, [fullRule]⟩)) (elemsOf fields "Rules") = true ∧
+    sameSet (childNames (ruleNode kc fullRule)) (elemsOf fields "Rule") = true ∧
+    sameSet (childNames (conditionSetNode kc ⟨[fullCond]⟩)) (elemsOf fields "ConditionSet") = true ∧
+    sameSet (childNames (sourceNode kc fullSource)) (elemsOf fields "Source") = true ∧
+    sameSet (childNames (treeOf (instanceNode kc fullInstance))) (elemsOf fields "Instance") = true ∧
+    sameSet (childNames (treeOf (instanceNode kc minInstance))) (alwaysElemsOf fields "Instance") = true ∧
+    wrappers.all (fun w =>
+      (if w.1 = "location" then itemsUnder (sourceNode kc fullSource) w.1
+       else itemsUnder (treeOf (toTree kc fullDoc)) w.1) == [w.2]) = true := by
+  decide +kernel
+
+/-- what `#[serde(default)]` re-creates on read, and what is required -/
+theorem source_defaults_match_model :
+    sameSet (defaultsOf fields "DesignSpaceDocument") ["instances", "lib", "rules"] = true ∧
+    readWrappedDefault (instanceOf kc) "instances" "instance" [] = some [] ∧ readLib kc [] = some .nil ∧
+    readRules kc [] = some ⟨.first, []⟩ ∧
+    (readWrapped (axisOf kc) "axes" "axis" []).isNone = true ∧
+    (readWrapped (sourceOf kc) "sources" "source" []).isNone = true ∧
+    sameSet (defaultsOf fields "Axis") ["@hidden"] = true ∧ readHidden none = some false ∧
+    sameSet (defaultsOf fields "Rules") ["@processing", "rule"] = true ∧
+    readRules kc [.elem "rules" [] []] = some ⟨.first, []⟩ ∧
+    sameSet (defaultsOf fields "ConditionSet") ["condition"] = true ∧
+    conditionSetOf kc (.elem "conditionset" [] []) = some ⟨[]⟩ ∧
+    sameSet (defaultsOf fields "Rule") [] = true ∧ (ruleOf kc (.elem "rule" [] [])).isNone = true ∧
+    sameSet (defaultsOf fields "Instance") ["lib"] = true ∧
+    sameSet (defaultsOf fields "Source") [] = true ∧ (readLocation kc []).isNone = true := by
+  decide
+
+/-- the two skip predicates that are norad's own code -/
+theorem source_skip_predicates_match_model :
+    skipOf fields "Axis" "@hidden" = "is_false" ∧ isFalseIsNegation = true ∧
+    skipOf fields "DesignSpaceDocument" "rules" = "Rules::is_empty" ∧ rulesEmptyTestsRules = true ∧
+    rulesEmptyTestsProcessing = !rulesIsEmpty ⟨.last, []⟩ ∧ rulesIsEmpty ⟨.first, []⟩ = true := by
+  decide
+
+/-- `RuleProcessing` under `rename_all`, and its default -/
+theorem source_processing_names_match_model :
+    processingNames = [showProcessing .first, showProcessing .last] ∧
+    processingDefault = showProcessing .first ∧ readOptProcessing none = some .first ∧
+    readProcessing (showProcessing .last) = some .last := by
+  decide
+
+/-- the plist glue: element written per value kind, value kind read per element, `key` and the wrapping
+    `dict` on both sides -/
+theorem source_glue_keywords_match_model :
+    glueWriteTags.all (fun p => match samplePV p.1 with
+      | some v => glueTag kc v == p.2
+      | none => false) = true ∧ glueWriteTags.length = 9 ∧
+    glueReadKeywords.all (fun p => kindRead (readValue kc (sampleElem p.1)) == p.2) = true ∧
+    glueReadKeywords.length = 9 ∧
+    childNames (treeOf (serializeWithin kc (.dict someLib))) = [glueKeyTagWritten, "true"] ∧
+    readKey (.elem glueKeyTagRead [] []) = some "" ∧
+    (treeOf ((libNodes kc someLib).map fun l => Tree.elem "" [] l) |> fun t => itemsUnder t "lib") = [glueWrapperWritten] ∧
+    readLib kc [.elem "lib" [] [.elem glueWrapperRead [] []]] = some .nil := by
+  decide +kernel
+
+/-- plist dates go through `Rfc3339` both ways; the years it can print, `lo ..< hi`, are the model's range of
+    printable dates (`dateLo`, `dateHi`, in seconds since the Unix epoch) -/
+theorem source_date_format_matches_model :
+    dateFromFormat = "Rfc3339" ∧ dateToFormat = "Rfc3339" ∧
+    daysFromCivil rfc3339YearLo 1 1 * 86400 = dateLo ∧ daysFromCivil rfc3339YearHi 1 1 * 86400 - 1 = dateHi ∧
+    daysFromCivil 2001 1 1 * 86400 = (plistEpochUnix : Int) := by
+  decide
+
+end source
 
 end C18
